@@ -128,6 +128,7 @@ def renderAct : Act → String
   | .commit => "COMMIT"
   | .rollback => "ROLLBACK"
   | .sql id => id
+  | .sqlFail id => id ++ "!"
   | .fr f => s!"FR{f}"
   | .frm f => s!"FRM{f}"
 
@@ -264,10 +265,10 @@ def runCacheOp (s : Cache) (kv : KV) : Except String (Cache × Out) := do
     let key := kv.getD "key" ""
     let val ← match (kv.getD "value" "0").toInt? with | some n => pure n | none => throw "value"
     match key with
-    | "cull_limit" => pure ({ s with cfg := { s.cfg with cullLimit := val.toNat } }, .int val)
-    | "size_limit" => pure ({ s with cfg := { s.cfg with limN := val, limD := 1 } }, .int val)
-    | "statistics" => pure ({ s with statistics := val != 0 }, .int val)
-    | "disk_min_file_size" => pure ({ s with cfg := { s.cfg with minFileSize := val.toNat } }, .int val)
+    | "cull_limit" => pure ({ s with cfg := { s.cfg with cullLimit := val.toNat } }.logSql "setCullLimit", .int val)
+    | "size_limit" => pure ({ s with cfg := { s.cfg with limN := val, limD := 1 } }.logSql "setSizeLimit", .int val)
+    | "statistics" => pure ({ s with statistics := val != 0 }.logSql "setStatistics", .int val)
+    | "disk_min_file_size" => pure ({ s with cfg := { s.cfg with minFileSize := val.toNat } }.logSql "setDiskMinFileSize", .int val)
     | _ => throw "reset-key"
   | _ => throw s!"method:{m}"
 
@@ -301,7 +302,7 @@ partial def loop (h : IO.FS.Stream) (out : IO.FS.Stream) (st : DState) : IO Unit
   out.putStrLn ans
   loop h out st'
 
-def main : IO Unit := do
+def driverMain : IO Unit := do
   let stdin ← IO.getStdin
   let stdout ← IO.getStdout
   loop stdin stdout {}
